@@ -9,6 +9,7 @@ mod interpose;
 mod layout;
 mod maps;
 mod mem;
+mod panics;
 mod place;
 mod probe_case;
 mod probes;
@@ -61,6 +62,10 @@ pub fn dispatch(req: &Value) -> Value {
         "times" => match serde_json::from_value::<times::TimesCase>(req["case"].clone()) {
             Ok(c) => serde_json::to_value(times::execute(&c)).unwrap(),
             Err(e) => json!({"harness_error": format!("bad times case: {e}")}),
+        },
+        "panic" => match serde_json::from_value::<panics::PanicCase>(req["case"].clone()) {
+            Ok(c) => serde_json::to_value(panics::execute(&c)).unwrap(),
+            Err(e) => json!({"harness_error": format!("bad panic case: {e}")}),
         },
         "ping" => json!({"pong": true}),
         _ => json!({"harness_error": format!("unknown op {op}")}),
@@ -285,6 +290,14 @@ fn cmd_times(prop: &str) -> i32 {
     rec.finish(&out_path())
 }
 
+fn cmd_panic(prop: &str) -> i32 {
+    let mut rec = Recorder::new(prop, "n-panics", "N: generated scripted test bodies (0..7 Install{target, times: N | plain} / Call steps over 3 targets) with exactly one panic source placed at a generated position 0..=len (every position reachable; shrunk towards 0), source in {user panic!, fake rejecting its arguments, over-called fake, refused install: signature mismatch / null pointer / boolean on non-bool / unchecked-checked mix / async output mismatch, allocation failure (every mmap fails), mprotect failure}, optionally caught inside the scope so that exit-time verification fires afterwards; 1..5 consecutive lifetimes per case and many per process, then a fresh thread creates an injector, installs, calls, drops under a deadline; oracle (script model): panics raised == panics predicted (one per source, plus one exit verification iff an unsatisfied expectation is pending and the scope is not unwinding), no abort, all functions byte-identical after the unwind, refused target unwritten at the moment of the panic, follow-up injector works; non-trivial = panic while >= 1 fake is installed; distinct by (source, position, caught, pending satisfied/unsatisfied)");
+    rec.assumptions.push("faults injected during *restoration* and panics inside extern \"C\"/\"system\" fakes (abort by language rule) are excluded by construction".into());
+    let n = cases(2400, 120_000);
+    run_sharded(&mut rec, 5, n, shards(), "panic", Value::Null, Duration::from_secs(120), panics::strategy, panics::judge, |c| json!({"PanicCase": c}));
+    rec.finish(&out_path())
+}
+
 fn cmd_sig(prop: &str) -> i32 {
     if prop == "C10" {
         let mut rec = Recorder::new(prop, "n-boolsig", "N: generated signature strings (type grammar rendered in type_name style; return types biased to renderings that merely end in `-> bool`: nested fn pointers, &dyn Fn() -> bool, raw pointers to fn types, and look-alikes Option<bool>, (bool,), [bool; 1], &bool) passed through FuncPtr::new + will_return_boolean(v); oracle (from the generated structure, never by parsing): accepted iff the top-level return type is exactly bool; refusal = panic with no interposed call and no byte changed; accepted => the call returns v; non-trivial = return type textually ending in `-> bool` without being bool, or bool behind >= 3 parameters; distinct by (string, value)");
@@ -368,6 +381,10 @@ fn cmd_replay(path: &str) -> i32 {
         let c: times::TimesCase = serde_json::from_value(c.clone()).expect("TimesCase");
         let ex = w.exec(&json!({"op": "times", "case": c}), Duration::from_secs(60));
         times::judge(&mut rec, &c, ex, &hello)
+    } else if let Some(c) = case.get("PanicCase") {
+        let c: panics::PanicCase = serde_json::from_value(c.clone()).expect("PanicCase");
+        let ex = w.exec(&json!({"op": "panic", "case": c}), Duration::from_secs(120));
+        panics::judge(&mut rec, &c, ex, &hello)
     } else if let Some(c) = case.get("SigCase") {
         let c: sigs::SigCase = serde_json::from_value(c.clone()).expect("SigCase");
         let ex = w.exec(&json!({"op": "sig", "case": c}), Duration::from_secs(30));
@@ -413,6 +430,7 @@ fn main() {
         "hist" => cmd_hist(prop.as_deref().unwrap_or("C02")),
         "probe" => cmd_probe(prop.as_deref().unwrap_or("C13")),
         "sig" => cmd_sig(prop.as_deref().unwrap_or("C09")),
+        "panic" => cmd_panic(prop.as_deref().unwrap_or("C05")),
         "times" => cmd_times(prop.as_deref().unwrap_or("C06")),
         "layout" => cmd_layout(prop.as_deref().unwrap_or("C11")),
         "shapes" => cmd_shapes(prop.as_deref().unwrap_or("C13")),
